@@ -194,6 +194,14 @@ def run(ctx, case):
         occupied = [bool(c > 0) for c in n]
         ctx.signature((kind, rule, k, m, occupied, [bool(s >= SD) for s in S]))
         ctx.claim(ctx.close(D, 1.0, 1e-9), "gassner_" + rule, (D, G, A))
+        # the predictions are pure functions of curve and collective: asking again (also after the Gassner
+        # curve has been requested) gives the same numbers, and the curve passed in is not changed
+        if rule == "elementary":
+            gcurve = acc.gassner(coll).to_pandas()
+            ctx.claim(ctx.close(gcurve["ND"], ND * A if case.get("scatter") is None else gcurve["ND"], 1e-9), "gassner_" + rule, ("Gassner curve ND", gcurve["ND"]))
+        G2, A2 = acc.gassner_cycles(coll), acc.lifetime_multiple(coll)
+        ctx.claim(ctx.close([G2, A2], [G, A], 1e-9), "gassner_" + rule, ("second call differs", G2, A2))
+        ctx.claim(ctx.eq([curve["SD"], curve["ND"]], [SD, ND]), "gassner_" + rule, "curve modified by the call")
         return {"G": G, "A": A, "D": D}
 
     if kind == "eff":
